@@ -15,6 +15,9 @@ import (
 	"runtime/debug"
 	"sort"
 	"strings"
+	"sync/atomic"
+	"syscall"
+	"time"
 
 	"verif/harness/report"
 )
@@ -294,3 +297,62 @@ func (c *Ctx) MergeChild(dir string) (found bool) {
 	}
 	return found
 }
+
+// ---- in-process CPU watchdog ---------------------------------------------------------------
+//
+// A call into the library that never returns cannot be judged by code that
+// runs after the call. CallBegin/CallEnd bracket a call; a watchdog goroutine
+// (the worker runs nothing else, so process CPU time ~ CPU time of the call)
+// terminates the process with a recognisable message once the call has used
+// more than the limit. The supervisor attributes the death to the in-flight
+// case through the write-ahead log and resumes after it.
+
+var (
+	wdActive atomic.Int64 // process CPU (ns) at the start of the current call, 0 = no call
+	wdName   atomic.Pointer[string]
+)
+
+func processCPU() int64 {
+	var ru syscall.Rusage
+	if err := syscall.Getrusage(0, &ru); err != nil {
+		return 0
+	}
+	return (ru.Utime.Sec+ru.Stime.Sec)*1e9 + (ru.Utime.Usec+ru.Stime.Usec)*1e3
+}
+
+// StartWatchdog starts the watchdog; what is the wording of the verdict
+// (e.g. "cpu-bound-exceeded").
+func StartWatchdog(limit time.Duration, what string) {
+	go func() {
+		for {
+			time.Sleep(100 * time.Millisecond)
+			start := wdActive.Load()
+			if start == 0 {
+				continue
+			}
+			if used := processCPU() - start; used > int64(limit) {
+				name := "?"
+				if p := wdName.Load(); p != nil {
+					name = *p
+				}
+				short := name
+				if i := strings.Index(short, "("); i > 0 {
+					short = short[:i]
+				}
+				fmt.Fprintf(os.Stderr, "fatal error: %s in %s\n(%s used more than %s of CPU in one call)\n", what, short, name, limit)
+				os.Exit(3)
+			}
+		}
+	}()
+}
+
+func CallBegin(name string) {
+	wdName.Store(&name)
+	c := processCPU()
+	if c == 0 {
+		c = 1
+	}
+	wdActive.Store(c)
+}
+
+func CallEnd() { wdActive.Store(0) }
